@@ -46,7 +46,7 @@ def run_sisdr(case, R):
     rng = gen.rng_of(case)
     T, lead = case['T'], tuple(case['lead'])
     s = rng.standard_normal((*lead, T)) * case['scale']
-    e = 0.7 * s / case['scale'] + rng.standard_normal((*lead, T)) * 10 ** rng.uniform(-3, 1)
+    e = 0.7 * s / case['scale'] + rng.standard_normal((*lead, T)) * 10 ** rng.uniform(-7.5, 1)       # SI-SDR from -20 dB up to ~150 dB
     sb, eb = s.copy(), e.copy()
     got = np.asarray(si_sdr(s, e))
     R.check('C19.sisdr', np.array_equal(s, sb) and np.array_equal(e, eb), 'sisdr/purity', 'arguments modified')
@@ -55,12 +55,13 @@ def run_sisdr(case, R):
         ss, ee = s[idx], e[idx]
         alpha = float(np.dot(ss, ee) / np.dot(ss, ss))
         ref[idx] = 10 * np.log10(np.sum((alpha * ss) ** 2) / np.sum((ee - alpha * ss) ** 2))
+    amp = 40 * np.finfo(float).eps * 10 ** (float(np.max(ref)) / 20)          # rounding of s_hat - alpha s, amplified at high SI-SDR
     dv = float(np.abs(got - ref).max())
-    R.check('C19.sisdr', got.shape == ref.shape and dv <= 1e-8, 'sisdr/value', f'si_sdr deviates from 10 log10(|alpha s|^2/|s_hat - alpha s|^2) by {dv:.3e} dB', dev=dv, lead=list(lead), T=T)
+    R.check('C19.sisdr', got.shape == ref.shape and dv <= 1e-8 + amp, 'sisdr/value', f'si_sdr deviates from 10 log10(|alpha s|^2/|s_hat - alpha s|^2) by {dv:.3e} dB', dev=dv, lead=list(lead), T=T)
     for name, (a, b) in {'estimate': (1.0, float(rng.choice([-1, 1]) * 10 ** rng.uniform(-6, 6))), 'reference': (float(rng.choice([-1, 1]) * 10 ** rng.uniform(-6, 6)), 1.0)}.items():
         g2 = np.asarray(si_sdr(s * a, e * b))
         d2 = float(np.abs(g2 - got).max())
-        R.check('C19.sisdr', d2 <= 1e-7, f'sisdr/scale-invariance/{name}', f'si_sdr changes by {d2:.3e} dB when the {name} is rescaled by {b if name == "estimate" else a:.3g}', dev=d2)
+        R.check('C19.sisdr', d2 <= 1e-7 + 10 * amp, f'sisdr/scale-invariance/{name}', f'si_sdr changes by {d2:.3e} dB when the {name} is rescaled by {b if name == "estimate" else a:.3g}', dev=d2)
     if lead:
         idx = tuple(int(rng.integers(n_)) for n_ in lead)
         one = float(si_sdr(s[idx], e[idx]))
@@ -150,6 +151,16 @@ def run_output(case, R):
     for k in range(Ks):
         img[k, (k * 2) % Kt] *= 10 ** rng.uniform(0, 2)
     noise = rng.standard_normal((Kt, T)) * 10 ** rng.uniform(-2, 0) * case['scale']
+    if case['rs'][-1] % 4 == 0 and Ks >= 2:
+        # two assignments of outputs to sources that capture almost (not exactly) the same power: the maximiser must still win
+        P_ = np.mean(img ** 2, axis=-1)
+        a, b = 0, 1
+        ja, jb = (a * 2) % Kt, (b * 2) % Kt
+        if ja != jb:
+            delta = float(10 ** rng.uniform(-6, -4))
+            want = (P_[a, ja] + P_[b, jb]) * (1 - delta) - P_[a, jb]        # power of source b in output ja so that the swap captures (1 - delta) of it
+            if want > 0:
+                img[b, ja] *= np.sqrt(want / P_[b, ja])
     ib, nb = img.copy(), noise.copy()
     rd = case['rd']
     res = output_sxr(img, noise, average_sources=case['avg_s'], return_dict=rd)
@@ -200,6 +211,9 @@ def run_snr(case, R):
     cplx = bool(rng.integers(0, 2))
     X = (gen.cnormal(rng, (*lead, T)) if cplx else rng.standard_normal((*lead, T))) * case['scale']
     Nn = (gen.cnormal(rng, (*lead, T)) if cplx else rng.standard_normal((*lead, T))) * 10 ** rng.uniform(-3, 3)
+    if case['rs'][-1] % 3 == 0:
+        T2 = int(rng.choice([T // 2 + 1, 2 * T, T + 7]))           # target and noise of different lengths (powers are means, not sums)
+        Nn = (gen.cnormal(rng, (*lead, T2)) if cplx else rng.standard_normal((*lead, T2))) * 10 ** rng.uniform(-3, 3)
     snr = float(rng.uniform(-30, 40))
     Xb, Nb = X.copy(), Nn.copy()
     X2, N2 = set_snr(X, Nn, snr, inplace=False)
